@@ -3,6 +3,8 @@ package main
 import (
 	"bytes"
 	"crypto/elliptic"
+	"crypto/rsa"
+	"math/big"
 	"fmt"
 	"sync"
 
@@ -85,8 +87,13 @@ func runC17(c *Ctx) {
 			sig := ed25519.Sign(sk, m)
 			bp, _ := ed25519.BlindPublicKeyWithContext(pk, blind, m)
 			bs := ed25519.BlindKeySignWithContext(sk, m, blind, m)
-			got := fmt.Sprint(ed25519.Verify(pk, m, sig), ed25519.Verify(bp, m, bs), ed25519.Verify(pk, m, bs))
-			return got, "true true false"
+			// a per-call blind as well: unblinding inverts blinding whatever the other goroutines are unblinding
+			own := sha256b(m)
+			op, _ := ed25519.BlindPublicKeyWithContext(pk, own, m)
+			up, _ := ed25519.UnblindPublicKeyWithContext(op, own, m)
+			up2, _ := ed25519.UnblindPublicKeyWithContext(bp, blind, m)
+			got := fmt.Sprint(ed25519.Verify(pk, m, sig), ed25519.Verify(bp, m, bs), ed25519.Verify(pk, m, bs), bytes.Equal(up, pk), bytes.Equal(up2, pk))
+			return got, "true true false true true"
 		}
 	})
 	scenario("ecdsa.shared-key:Sign+Verify+Blind", func() func(g, k int) (string, string) {
@@ -102,8 +109,13 @@ func runC17(c *Ctx) {
 			bp, _ := ecdsa.BlindPublicKeyWithContext(elliptic.P384(), &sk.PublicKey, bk, []byte("ctx"))
 			br, bs, _ := ecdsa.BlindKeySignWithContext(&failReader{limit: -1}, sk, bk, d, []byte("ctx"))
 			der, _ := ecdsa.SignASN1(&failReader{limit: -1}, sk, d)
-			got := fmt.Sprint(ecdsa.Verify(&sk.PublicKey, d, rr, ss), bp.X.Cmp(refBp.X) == 0, ecdsa.Verify(bp, d, br, bs), ecdsa.VerifyASN1(&sk.PublicKey, d, der))
-			return got, "true true true true"
+			up, _ := ecdsa.UnblindPublicKeyWithContext(elliptic.P384(), bp, bk, []byte("ctx"))
+			// and with a per-call context (another blinding factor under the same shared blinding key)
+			op, _ := ecdsa.BlindPublicKeyWithContext(elliptic.P384(), &sk.PublicKey, bk, d)
+			up2, _ := ecdsa.UnblindPublicKeyWithContext(elliptic.P384(), op, bk, d)
+			got := fmt.Sprint(ecdsa.Verify(&sk.PublicKey, d, rr, ss), bp.X.Cmp(refBp.X) == 0, ecdsa.Verify(bp, d, br, bs), ecdsa.VerifyASN1(&sk.PublicKey, d, der),
+				up != nil && up.X.Cmp(sk.X) == 0 && up.Y.Cmp(sk.Y) == 0, up2 != nil && up2.X.Cmp(sk.X) == 0 && up2.Y.Cmp(sk.Y) == 0)
+			return got, "true true true true true true"
 		}
 	})
 	scenario("type1.issuer:Evaluate+Verify+TokenKeyID", func() func(g, k int) (string, string) {
@@ -231,6 +243,28 @@ func runC17(c *Ctx) {
 			_, e1 := st1.FinalizeToken(rs[0])
 			_, e2 := st2.FinalizeToken(rs[2])
 			return fmt.Sprint(e1 == nil, len(rs[1]) == 0, e2 == nil), "true true true"
+		}
+	})
+	// one verification key (the issuer's published token key object) shared by many clients
+	scenario("type2.shared-token-key:CreateTokenRequestWithBlind+FinalizeToken", func() func(g, k int) (string, string) {
+		key := rsaKey(r.IntN(4))
+		iss := type2.NewBasicPublicIssuer(key)
+		pub := iss.TokenKey()
+		// an equal key in another object, for the sequential reference
+		ref := &rsa.PublicKey{N: new(big.Int).Set(pub.N), E: pub.E}
+		blind := r.Bytes(256)
+		blind[0] &= 0x3f
+		salt := r.Bytes(48)
+		return func(g, k int) (string, string) {
+			want, err := type2.NewBasicPublicClient().CreateTokenRequestWithBlind(msg(g, k), bytes.Repeat([]byte{byte(k)}, 32), iss.TokenKeyID(), ref, blind, salt)
+			if err != nil {
+				return "reference-error", "ok"
+			}
+			st, err := type2.NewBasicPublicClient().CreateTokenRequestWithBlind(msg(g, k), bytes.Repeat([]byte{byte(k)}, 32), iss.TokenKeyID(), pub, blind, salt)
+			if err != nil {
+				return "create-error", "ok"
+			}
+			return hxv(st.Request().Marshal()), hxv(want.Request().Marshal())
 		}
 	})
 }
